@@ -135,3 +135,57 @@ Example C13_one3d_readers_agree_inhabited :
   o_wf c = true /\ o3r_probe 16 [(4001, 100); (4001, 100); (4001, 200); (4001, 200)] = Some self
   /\ o3r_recordposition self 4001 200 2 = 72 /\ cells_at (o_enc c) 72 2 = [23; 24].
 Proof. vm_compute. repeat split; reflexivity. Qed.
+
+(* ======================================================================================================
+   CAMx TEMPERATURE and HEIGHT/PRESSURE files, Model/TempHp.v: record readers' position arithmetic TRANSLATED from
+   camxfiles/height_pressure/Read.py (hpr_ definitions) and camxfiles/temperature/Read.py (tr_ definitions)
+   ====================================================================================================== *)
+From PNC Require Import Model.TempHp Proofs.TempHpProofs.
+
+Theorem C13_heightpres_recordposition_is_spec_offset : forall (self : hpr_self) ri t k hp d tm,
+  hpr_data_start_byte self = 0 -> hpr_padded_size self = 4 * ri ->
+  Z.quot (tt_timediff (hpr_start_date self, hpr_start_time self) (d, tm) 2400) (hpr_time_step self) = t ->
+  hpr_recordposition self d tm k hp = 4 * ((t * (2 * hpr_nlayers self) + 2 * (k - 1) + hp) * ri).
+Proof. exact hpr_recordposition_spec. Qed.
+Print Assumptions C13_heightpres_recordposition_is_spec_offset.
+
+(* both height_pressure readers present the same cells *)
+Theorem C13_heightpres_readers_agree_on_data : forall hc (self : hpr_self) H1 hs H2 P1 h p P2 d tm hp, h_wf hc = true ->
+  h_steps hc = H1 ++ hs :: H2 -> hs_hp hs = P1 ++ (h, p) :: P2 ->
+  hpr_nlayers self = h_nz hc -> hpr_data_start_byte self = 0 -> hpr_padded_size self = 4 * h_rec_words hc ->
+  Z.quot (tt_timediff (hpr_start_date self, hpr_start_time self) (d, tm) 2400) (hpr_time_step self)
+    = Z.of_nat (length H1) ->
+  hp = 0 \/ hp = 1 ->
+  cells_at (h_enc hc) (hpr_recordposition self d tm (Z.of_nat (length P1) + 1) hp) (h_nx hc * h_ny hc)
+  = if hp =? 0 then h else p.
+Proof. exact h_readers_agree. Qed.
+Print Assumptions C13_heightpres_readers_agree_on_data.
+
+(* temperature: the j-th position of the translated surface generator holds the surface field of step j, and row k of the
+   array mapped at the j-th position of the translated air generator holds layer k+1 of step j -- the cells the Memmap
+   model presents as SURFTEMP[j] and AIRTEMP[j][k] (C09_temperature_reader_presents_content) *)
+Theorem C13_temperature_surface_positions : forall tc T1 ts T2, t_wf tc = true -> t_steps tc = T1 ++ ts :: T2 ->
+  words_at (t_enc tc)
+    (tr_surfpos0 0 + Z.of_nat (length T1) * tr_surf_inc (4 * t_rec_words tc) (4 * t_rec_words tc) (t_nz tc))
+    (t_nx tc * t_ny tc) = ts_surf ts.
+Proof. exact t_surf_agree. Qed.
+Print Assumptions C13_temperature_surface_positions.
+
+Theorem C13_temperature_air_positions : forall tc T1 ts T2 A1 lay A2, t_wf tc = true ->
+  t_steps tc = T1 ++ ts :: T2 -> ts_air ts = A1 ++ lay :: A2 ->
+  cells_at (t_enc tc)
+    (tr_airpos0 (4 * t_rec_words tc) 0
+     + Z.of_nat (length T1) * tr_air_inc (4 * t_rec_words tc) (4 * t_rec_words tc) (t_nz tc)
+     + 4 * (Z.of_nat (length A1) * (t_nx tc * t_ny tc + 4)))
+    (t_nx tc * t_ny tc) = lay.
+Proof. exact t_air_agree. Qed.
+Print Assumptions C13_temperature_air_positions.
+
+Example C13_temphp_inhabited :
+  let tc := {| t_nx := 2; t_ny := 1; t_nz := 2;
+     t_steps := [TStep 1120403456 4001 [1; 2] [[3; 4]; [5; 6]]; TStep 1128792064 4001 [11; 12] [[13; 14]; [15; 16]]] |} in
+  let s := {| trs_nlayers := 2; trs_time_step := 100; trs_count := 2; trs_area_padded := 24; trs_padded := 24 |} in
+  t_wf tc = true /\ tr_probe 16 [(4001, 100); (4001, 100); (4001, 100); (4001, 200); (4001, 200); (4001, 200)] = Some s
+  /\ tr_surf_positions s 9 144 = [12; 84] /\ words_at (t_enc tc) 84 2 = [11; 12]
+  /\ tr_air_positions s 9 144 = [24; 96] /\ air_at (t_enc tc) 96 2 2 = [[13; 14]; [15; 16]].
+Proof. vm_compute. repeat split; reflexivity. Qed.
